@@ -530,6 +530,7 @@ func init() {
 
 	// ----- bank --------------------------------------------------------------------------------------------------
 	reg("BankKeeper.SendCoins", "SendCoins(from,to,coins): either returns an error and leaves the bank unchanged, or returns nil, requires bal[from,d] >= a and moves exactly a of d from `from` to `to` for each coin (A-BANK)", func(c *CallCtx) []Outcome {
+		c.fundedOnly = c.x.topC != nil && c.x.topC.Opts["send_succeeds_if_funded"]
 		return c.x.bankTransfer(c, c.t(2), c.t(3), c.tv(4))
 	})
 	reg("BankKeeper.SendCoinsFromModuleToAccount", "SendCoinsFromModuleToAccount(module,to,coins) is SendCoins from moduleAddr(module) (A-BANK); additionally fails for blocked recipients; may panic (demonic outcome, e.g. a receiving contract hook)", func(c *CallCtx) []Outcome {
